@@ -429,7 +429,14 @@ def build(tier, seed):
            bounds="all code points <= 0x10FFFF; tables regenerated from the live BuiltinNameSanitizer and the running interpreter")
     mk.obs.append(type(mk.obs[0])(name="prefix_collision", module=mk.key, kind="smt", timeout=300, family="K-name/2 (z3 strings): prefix collisions",
                                   bounds="prefixes harvested from loader_gen/dumper_gen x fixed names + keywords; id in [A-Za-z_][A-Za-z0-9_]*"))
-    return Plan("C19", mods + [mi, mn, mk],
+    # parameter names that differ from the field ids (attrs private attributes, alias=): the constructor-call obligations of C08
+    from props.C08 import build as build_c08
+    pn = []
+    for m08 in build_c08(tier, seed).modules:
+        if m08.key == "c08_e2e":
+            m08.obs = [o for o in m08.obs if o.name in ("takes_self_param_names", "param_name_vs_field_id")]
+            pn.append(m08)
+    return Plan("C19", mods + [mi, mn, mk] + pn,
                 assumptions=["the string quantifier cannot cross compile(): hostile keys / ids / names are enumerated as extra programs, data is symbolic",
                              "a canary function in builtins records any evaluation of injected text"],
                 bounds={"keys": f"{len(keys)} of {len(hostile_keys())}", "identifiers": str(len(IDENTS))},
